@@ -338,7 +338,9 @@ def run_reader(mutate=None, prefixes=("C05.",)):
         # frame condition: reading a file leaves no state behind in the module (a result remembered across calls is keyed by something - a path, a
         # range - that does not determine the contents of a file)
         ch = instrument.module_state_changes(st0, instrument.module_state(L))
-        check("C05.reader.result_is_a_function_of_the_file_contents.no_module_state_written", z3.BoolVal(not ch), note=f"module-level state changed by the call: {ch}")
+        # (a candidate only: a correctly keyed cache would be harmless, so a failure counts only when the native replay - a path used again for another
+        # run - shows wrong records)
+        check("C05.reader.result_is_a_function_of_the_file_contents.no_module_state_written", z3.BoolVal(not ch), note=f"module-level state changed by the call: {ch}", weak=True)
 
         def facts(b, c):
             return unfoldT(b * k + c)
